@@ -12,7 +12,7 @@
 (*   <<"VERDICT", rid, "accept"|"reject", clause, detail, bitsConsumed>>   *)
 (* line; a rejected record never blocks the following ones.                *)
 (***************************************************************************)
-EXTENDS Decode, Crc24q, Json, IOUtils
+EXTENDS Message, Json, IOUtils
 
 Tables  == TLCEval(JsonDeserialize(IOEnv.VERIF_TABLES))
 Records == TLCEval(JsonDeserialize(IOEnv.VERIF_RECORDS))
@@ -22,9 +22,11 @@ JTable  == Tables.table
 NA      == Tables.na
 
 VARIABLES rid,      \* index of the record being judged (Len+1 when done)
-          learnt    \* <<mode, g, id>> -> label text seen first (C16 consistency)
+          learnt,   \* <<mode, g, id>> -> label text seen first (C16 consistency)
+          opi,      \* next operation of the record's history (Message-level ops)
+          opfail    \* << >> or <<clause, detail>> of the first failing operation
 
-jvars == <<rid, learnt>>
+jvars == <<rid, learnt, opi, opfail>>
 vars == <<dvars, jvars>>
 
 Rec == Records[rid]
@@ -120,6 +122,118 @@ Verdict ==
        ELSE IF ModeOK(r.attrs, r.lab) THEN <<"accept", IF st = "stub" THEN "Stub" ELSE "Message", << >> >>
        ELSE <<"reject", "Attributes", Detail(r.attrs, r.lab)>>
 
+
+---------------------------------------------------------------------------
+\* Message-level operations recorded after the construction (histories):
+\* each op record has the uniform shape
+\*  [op, name, raised, lib, none, flag, bytes, ident, attrs, sd, meta, sats, cells, layers, names]
+ValMatch(e, o, mode) == Match(e, [o EXCEPT !.n = e.n], mode)
+RMode == IF Rec.lab = "either" THEN ModeUsed(Rec.attrs, Rec.lab) ELSE Rec.lab
+
+EntryOK(grp, i, ent) ==
+  LET E == EntryOf(grp, i) IN
+  /\ {ent[k].b : k \in 1 .. Len(ent)} = {attrs[j].b : j \in E}
+  /\ \A k \in 1 .. Len(ent) : \E j \in E : attrs[j].b = ent[k].b /\ ValMatch(attrs[j], ent[k].v, RMode)
+
+MsmHelperOK(o) ==
+  LET ps == PosOf(attrs, "DF003")
+      pe == PosOf(attrs, EpochField(Gnss))
+  IN
+  /\ ~o.none /\ o.raised = ""
+  /\ o.meta.ident = ident
+  /\ ps # 0 /\ ValMatch(attrs[ps], o.meta.station, RMode)
+  /\ pe # 0 /\ ValMatch(attrs[pe], o.meta.epoch, RMode)
+  /\ o.meta.sats = Len(sats) /\ o.meta.cells = Len(cells)
+  /\ Len(o.sats) = Len(sats) /\ Len(o.cells) = Len(cells)
+  /\ \A i \in 1 .. Len(o.sats) : EntryOK("NSat", i, o.sats[i])
+  /\ \A i \in 1 .. Len(o.cells) : EntryOK("NCell", i, o.cells[i])
+
+ListOK(pos, vals) ==
+  /\ Len(pos) = Len(vals)
+  /\ \A k \in 1 .. Len(pos) : ValMatch(attrs[pos[k]], vals[k], RMode)
+
+HarmHelperOK(o) ==
+  /\ ~o.none /\ o.raised = ""
+  /\ Len(o.layers) = NumLayers
+  /\ \A l \in 1 .. Len(o.layers) :
+       LET ph == PosOf(attrs, Render("IDF036", << l >>)) IN
+       /\ ph # 0 /\ ValMatch(attrs[ph], o.layers[l].height, RMode)
+       /\ ListOK(LayerPos("IDF039", l), o.layers[l].cos)
+       /\ ListOK(LayerPos("IDF040", l), o.layers[l].sin)
+
+NameOK(e, x) ==
+  e.b # "" /\ e.b \in DOMAIN JFields =>
+    /\ x.n = e.n
+    /\ x.raised = ""
+    /\ x.dd = JFields[e.b].dd                                   \* datadesc = description of the base field
+    /\ (e.ix # << >> => x.idx = e.ix /\ x.tuple = (Len(e.ix) > 1) /\ x.base = e.b)
+
+FirstBadName(o) ==
+  LET n == IF Len(o.names) < Len(attrs) THEN Len(o.names) ELSE Len(attrs)
+      B == {i \in 1 .. n : ~NameOK(attrs[i], o.names[i])}
+  IN  IF B = {} THEN 0 ELSE CHOOSE i \in B : \A j \in B : i <= j
+
+\* snapshot of a live message equals the specification's state
+SnapOK(o) ==
+  /\ o.bytes = p
+  /\ o.ident = ident
+  /\ ModeOK(o.attrs, Rec.lab)
+
+OpCheck(o) ==
+  CASE o.op = "serialize" ->
+         IF o.raised # "" THEN <<"Serialize", <<"raised", o.raised>> >>
+         ELSE IF o.bytes = Frame(p) THEN << >> ELSE <<"Serialize", <<"frame differs", Len(o.bytes), Len(Frame(p))>> >>
+    [] o.op = "payload" ->
+         IF o.bytes = p THEN << >> ELSE <<"PayloadKept", <<Len(o.bytes), Len(p)>> >>
+    [] o.op = "reparse" ->         \* parse(serialize()) with validation on
+         IF o.raised # "" THEN <<"RoundTrip", <<"raised", o.raised>> >>
+         ELSE IF SnapOK(o) THEN << >> ELSE <<"RoundTrip", <<"snapshot differs", o.ident>> >>
+    [] o.op = "repr" ->            \* eval(repr(msg)): same payload (repr does not carry the label option)
+         IF o.raised # "" THEN <<"ReprEval", <<"raised", o.raised>> >>
+         ELSE IF o.bytes = p /\ o.ident = ident THEN << >> ELSE <<"ReprEval", <<"payload differs", o.ident>> >>
+    [] o.op = "frameback" ->       \* parse(valid frame).serialize() = the frame, byte for byte
+         IF o.raised # "" THEN <<"FrameBack", <<"raised", o.raised>> >>
+         ELSE IF o.bytes = Rec.frame /\ o.bytes = Frame(p) THEN << >> ELSE <<"FrameBack", <<Len(o.bytes), Len(Rec.frame)>> >>
+    [] o.op = "setattr" ->         \* any assignment after construction
+         IF o.raised # "RTCMMessageError" THEN <<"Frozen", <<o.name, "no RTCMMessageError", o.raised>> >>
+         ELSE IF ~SnapOK(o) THEN <<"Frozen", <<o.name, "state changed">> >>
+         ELSE IF o.sd # Rec.sd THEN <<"Frozen", <<o.name, "str/repr/serialize changed">> >>
+         ELSE << >>
+    [] o.op = "ismsm" ->
+         IF o.raised # "" THEN <<"IsMsm", <<"raised", o.raised>> >>
+         ELSE IF MsmSpec(mid) = "yes" /\ ~o.flag THEN <<"IsMsm", <<mid, "implemented MSM not reported">> >>
+         ELSE IF MsmSpec(mid) = "no" /\ o.flag THEN <<"IsMsm", <<mid, "reported outside the MSM block">> >>
+         ELSE << >>
+    [] o.op = "parse_msm" ->
+         IF o.raised # "" THEN <<"HelperRaised", <<"parse_msm", o.raised>> >>
+         ELSE IF MsmSpec(mid) = "yes" /\ st = "ok"
+              THEN IF MsmHelperOK(o) THEN << >> ELSE <<"MsmHelper", <<ident>> >>
+         ELSE IF o.none THEN << >> ELSE <<"HelperNotNone", <<"parse_msm", ident>> >>
+    [] o.op = "parse_4076_201" ->
+         IF o.raised # "" THEN <<"HelperRaised", <<"parse_4076_201", o.raised>> >>
+         ELSE IF ident = "4076_201" /\ st = "ok"
+              THEN IF HarmHelperOK(o) THEN << >> ELSE <<"HarmHelper", <<ident>> >>
+         ELSE IF o.none THEN << >> ELSE <<"HelperNotNone", <<"parse_4076_201", ident>> >>
+    [] o.op = "names" ->
+         IF Len(o.names) # Len(attrs) THEN <<"Names", <<"count", Len(o.names), Len(attrs)>> >>
+         ELSE LET i == FirstBadName(o) IN
+              IF i = 0 THEN << >> ELSE <<"Names", <<attrs[i].n, attrs[i].b, attrs[i].ix, o.names[i]>> >>
+    [] OTHER -> <<"UnknownOp", <<o.op>> >>
+
+Op ==
+  /\ rid <= Len(Records)
+  /\ JTerminal /\ st \in {"ok", "stub"} /\ Rec.out = "msg"
+  /\ opfail = << >>
+  /\ opi <= Len(Rec.ops)
+  /\ Verdict[1] = "accept"
+  /\ opfail' = OpCheck(Rec.ops[opi])
+  /\ opi' = opi + 1
+  /\ UNCHANGED <<dvars, rid, learnt>>
+
+OpsPending ==
+  /\ st \in {"ok", "stub"} /\ Rec.out = "msg" /\ opfail = << >> /\ opi <= Len(Rec.ops)
+  /\ Verdict[1] = "accept"
+
 NewLabels ==
   LET r == Rec
       m == ModeUsed(r.attrs, r.lab)
@@ -131,13 +245,15 @@ NewLabels ==
 Judge ==
   /\ rid <= Len(Records)
   /\ JTerminal
-  /\ LET v == Verdict IN
+  /\ ~OpsPending
+  /\ LET v == IF opfail = << >> THEN Verdict ELSE <<"reject", opfail[1], opfail[2]>> IN
      /\ PrintT(<<"VERDICT", Rec.rid, v[1], v[2], v[3], off>>)
      /\ learnt' = IF v[1] = "accept" /\ st = "ok" /\ Rec.out = "msg" /\ Rec.lbl
                   THEN LET nl == NewLabels IN
                        IF DOMAIN nl # {} /\ PrintT(<<"LEARNT", [k \in DOMAIN nl |-> nl[k]]>>) THEN nl @@ learnt ELSE learnt
                   ELSE learnt
   /\ rid' = rid + 1
+  /\ opi' = 1 /\ opfail' = << >>
   /\ IF rid + 1 <= Len(Records)
      THEN LoadNextSt(PayloadOfRec(Records[rid + 1]), StartOfRec(Records[rid + 1]))
      ELSE UNCHANGED dvars
@@ -145,9 +261,10 @@ Judge ==
 JInit ==
   /\ rid = 1
   /\ learnt = << >>
+  /\ opi = 1 /\ opfail = << >>
   /\ IF Len(Records) >= 1 THEN LoadSt(PayloadOfRec(Records[1]), StartOfRec(Records[1])) ELSE Load(<<0, 0>>)
 
-JNext == (rid <= Len(Records) /\ DecodeNext /\ UNCHANGED jvars) \/ Judge
+JNext == (rid <= Len(Records) /\ DecodeNext /\ UNCHANGED jvars) \/ Op \/ Judge
 
 JSpec == JInit /\ [][JNext]_vars
 
